@@ -177,6 +177,9 @@ var c20Skip = map[string]string{
 }
 
 func runC20(c *an.Ctx) {
+	// ---- R9: what the constructors reject, validation rejects first (shared with C18-R7)
+	c.Floor("C20-R9", 1)
+	c.Borrow("C20-R9", runC18, func(o an.Obligation) bool { return o.Rule == "C18-R7" && strings.Contains(o.Key, "connlimiter.New") })
 	c20Accumulators(c)
 	// ---- R7: the validated TCP limits reach every stream transport
 	c.Floor("C20-R7", 2)
